@@ -23,6 +23,7 @@ func runC02(c *Ctx) {
 	c02R2(c)
 	c02R3(c)
 	c02R4(c)
+	c.shared("R5", "C14/R2", "the -r selectors reach the interpreter complete and in the order given: multiFlag.Set appends, Run passes the accumulated slice", keyHas("selector"), c14R2)
 }
 
 var rulePartition = map[string]string{"BeginRule": "beginRules", "BeginFileRule": "beginFileRules", "EndRule": "endRules", "EndFileRule": "endFileRules", "PatternRule": "patternRules"}
@@ -218,6 +219,17 @@ func c02R2(c *Ctx) {
 		}
 		v := p.RenderShort(st.Val)
 		c.check(d.root(v), "R2", "driver-root "+d.name, p.InstrPos(st), "$ = "+d.what, "in "+d.name+" rules $ is bound to "+v+"; documented: "+d.what)
+		if strings.HasPrefix(v, "&lang.Cell{") {
+			// a fresh cell per rule: the allocation happens inside the driver loop
+			fresh := false
+			if call, _ := callOf(st.Val); call != nil && inLoop(d.l, call.Block()) {
+				fresh = true
+			}
+			if a, ok := st.Val.(*ssa.Alloc); ok && inLoop(d.l, a.Block()) {
+				fresh = true
+			}
+			c.check(fresh, "R2", "driver-root-fresh "+d.name, p.InstrPos(st), "a new cell is created for every rule", "the cell bound to $ in "+d.name+" rules is created outside the rule loop: every "+d.name+" rule (and any other driver using it) shares one cell, so what one rule assigns to $ is seen by the next")
+		}
 	}
 	// ENDFILE's value is captured before the BEGINFILE rules (rootVal := rootCell.Value at loop entry)
 	// selectors: the selector loop appends in selector order (rootsPerValue) and precedes the root loop
